@@ -206,7 +206,9 @@ def process_unit(unit, outdir, rlimit):
             if in_unit:
                 fe = locate_fn(linemap, s['line_start'])
                 is_clause = ('failed this' in label) or ('failed precondition' in label) or (s.get('is_primary') and 'not satisfied' in d['message'] and 'postcondition' not in d['message'] and 'precondition' not in d['message'])
-                if ('failed this' in label) or ('failed precondition' in label) or d['message'].startswith('invariant not satisfied') and s.get('is_primary'):
+                if ('failed this' in label) or ('failed precondition' in label) or (s.get('is_primary') and (
+                        d['message'].startswith('invariant not satisfied') or d['message'].startswith('assertion failed')
+                        or (d['message'].startswith('precondition not satisfied') and s['line_end'] - s['line_start'] < 3))):
                     for ln in range(s['line_start'], s['line_end'] + 1):
                         clause_tags += tags.get(ln, [])
                     clause_text = txt
